@@ -42,7 +42,14 @@ func (ir *IntrospectionResolver) resolveSchema(schema *ast.Schema, selectionSet 
 		switch f.Name {
 		case "types":
 			types := []map[string]interface{}{}
-			for _, t := range schema.Types {
+			// map order is random and sortPayload can only sort by a selected `name`
+			typeNames := make([]string, 0, len(schema.Types))
+			for name := range schema.Types {
+				typeNames = append(typeNames, name)
+			}
+			sort.Strings(typeNames)
+			for _, name := range typeNames {
+				t := schema.Types[name]
 				types = append(types, ir.resolveType(schema, &ast.Type{NamedType: t.Name}, f.SelectionSet))
 			}
 			sortPayload(types)
@@ -55,7 +62,13 @@ func (ir *IntrospectionResolver) resolveSchema(schema *ast.Schema, selectionSet 
 			result[f.Alias] = ir.resolveType(schema, &ast.Type{NamedType: "Subscription"}, f.SelectionSet)
 		case "directives":
 			directives := []map[string]interface{}{}
-			for _, d := range schema.Directives {
+			directiveNames := make([]string, 0, len(schema.Directives))
+			for name := range schema.Directives {
+				directiveNames = append(directiveNames, name)
+			}
+			sort.Strings(directiveNames)
+			for _, name := range directiveNames {
+				d := schema.Directives[name]
 				directives = append(directives, ir.resolveDirective(schema, d, f.SelectionSet))
 			}
 			sortPayload(directives)
